@@ -324,6 +324,15 @@ func (sc *collection) doBuild(ctx context.Context) (Provider, error) {
 			p.voidReturnScopedDescriptors = append(p.voidReturnScopedDescriptors, descriptor)
 		}
 
+		// The outputs of a multi-return constructor or result object are found
+		// through their registration, whatever name or group they carry
+		if descriptor != nil && (descriptor.isResultObject || descriptor.MultiReturnIndex >= 0) {
+			if p.outputs == nil {
+				p.outputs = make(map[uint64][]*Descriptor)
+			}
+			p.outputs[descriptor.registration] = append(p.outputs[descriptor.registration], descriptor)
+		}
+
 		// A constructor registered under several interfaces produces one
 		// instance that is shared by all of them
 		if descriptor != nil && len(descriptor.As) > 1 && descriptor.MultiReturnIndex < 0 && !descriptor.isResultObject {
@@ -630,6 +639,7 @@ func (r *collection) addService(service any, lifetime Lifetime, opts ...AddOptio
 				isFunc:          descriptor.isFunc,
 				isResultObject:  true,
 				registration:    descriptor.registration,
+				resultFieldName: field.Name,
 				resultFields:    descriptor.resultFields,
 				isParamObject:   descriptor.isParamObject,
 				paramFields:     descriptor.paramFields,
